@@ -17,7 +17,7 @@ import itertools
 from pydantic import BaseModel, ValidationError
 
 from opsim import seams
-from opsim.core import SimBudget, derive
+from opsim.core import SimBudget, derive, CLOCK
 from opsim.sched import SeqTracer
 from opsim.util import call, weighted, quiet
 
@@ -33,11 +33,11 @@ ID = "C18"
 LEVEL = "exploration"
 ENGINE = "seq"
 RUNS = {"quick": 150_000, "thorough": 10_000_000}
-RULE = ("runs 0..24199 enumerate, per loop, every limit value 0..4 (swarm: both limits, 25 pairs) x every peer script of "
+RULE = ("runs 0..28824 enumerate, per loop, every limit value 0..4 (swarm: both limits, 25 pairs) x every peer script of "
         "length <=3 over the loop's alphabet with the last symbol repeating forever (heal: {non-JSON, schema-invalid, "
         "valid, echo the error, raise RuntimeError, raise TypeError from its own body, raise the library's ProviderUnavailableError, never-repeating} x {plain, error-tagging} chaperone x {repeat-last, cycle}; swarm: "
         "{same output, fresh output, marker, lower-case marker, near-miss of a marker (letters split over two words, a "
-        "digit, punctuation or a line break), raise, delegate a sub-task to the same supervisor re-entrantly}; tools: {one tool, unknown tool, two tools, final, raise, raising tool} x final completion "
+        "digit, punctuation or a line break), a marker split over two consecutive outputs, raise, delegate a sub-task to the same supervisor re-entrantly}; tools: {one tool, unknown tool, two tools, final, raise, raising tool} x final completion "
         "{text, empty}); later runs sample scripts of length <=8 over wider alphabets, cycling tails, per-worker "
         "scripts, entropy thresholds, summarizer behaviours, repeated supervise / heal / transcribe_with_tools on one "
         "long-lived object, re-entrant delegation after k worker deaths, confidence decays, misfold observers (recording, "
@@ -79,7 +79,8 @@ EXPECT_PROBES = ("heal_degraded_at_limit", "heal_healed_at_limit", "heal_valid_f
                  "tools_blank_final_with_nucleus_retries", "heal_second_call_on_same_loop",
                  "tools_second_call_on_same_nucleus", "heal_generator_raised_builtin_type",
                  "swarm_worker_keeps_no_memory", "swarm_worker_edits_its_memory", "tools_large_payload",
-                 "heal_generator_raised_provider_error", "swarm_near_miss_output")
+                 "heal_generator_raised_provider_error", "swarm_near_miss_output", "swarm_step_overran_timeout",
+                 "swarm_marker_split_over_two_outputs", "tools_ordinary_call_after_unexecuted_request")
 
 MARKERS = ("SUCCESS", "SOLVED", "COMPLETE", "DONE", "FINISHED")
 SCOPE = None
@@ -108,6 +109,9 @@ GEN_RAISES = {"R": lambda: RuntimeError("generator failed"),
               # the library's own provider error family (a generator is usually a thin wrapper around an LLM client)
               "N": lambda: ProviderUnavailableError("provider unreachable"), "q": lambda: QuotaExhaustedError("429"),
               "t": lambda: TranscriptionFailedError(""), "b": lambda: NucleusError("nucleus error")}
+# consecutive outputs that split a marker across their boundary: neither carries it, head + tail spells it
+SPLIT_HEADS = ["there is nothing to do", "still trying to suc", "partly sol", "only half comp", "nearly fini"]
+SPLIT_TAILS = ["ne more idea then", "cess is far away", "ved nothing yet", "lete rubbish so far", "shed no light on it"]
 # outputs that almost carry a marker: the letters are there, but split over two words / a digit / punctuation / a line break
 NEAR_MISS = ["working out what to do next", "TODO: new idea", "undo nested", "redo\nnetwork", "do 2 nearly",
              "solve 3 deadlocks", "finish editing", "to-do: next", "Do. Never mind", "re-solve data"]
@@ -132,7 +136,7 @@ def _table():
                     t.append(("heal", lim, chap, s, tail))
     for regen in range(5):
         for steps in range(5):
-            for s in _scripts("suMRdDn"):
+            for s in _scripts("suMRdDnj"):
                 t.append(("swarm", regen, steps, s))
     for lim in range(5):
         for s in _scripts("TK2FRE"):
@@ -142,7 +146,7 @@ def _table():
     return t
 
 
-assert not any(mk in o.upper() for o in NEAR_MISS for mk in MARKERS)
+assert not any(mk in o.upper() for o in NEAR_MISS + SPLIT_HEADS + SPLIT_TAILS for mk in MARKERS)
 TABLE = _table()
 TABLE_SIZE = len(TABLE)
 
@@ -160,18 +164,18 @@ def _heal_plan(lim, chap, script, tail, decay=0.1, prompt="make a quote", strate
 
 
 def _swarm_plan(regen, steps, script, thr=0.5, mode="global", summ="hints", supervise=1, tail="last", delegations=2,
-                timeout=None, worker="recording", hints_mut=False):
+                timeout=None, worker="recording", hints_mut=False, step_dt=0):
     return {"config": {"kind": "swarm", "max_regenerations": regen, "max_steps": steps, "threshold": thr,
                        "mode": mode, "summ": summ, "supervise": supervise, "tail": tail, "delegations": delegations,
-                       "timeout": timeout, "worker": worker, "hints_mut": hints_mut},
+                       "timeout": timeout, "worker": worker, "hints_mut": hints_mut, "step_dt": step_dt},
             "fakes": {"worker": list(script)}}
 
 
 def _tools_plan(lim, script, final="final answer", tail="last", auto=True, tools="both", provider="tools",
-                nuc_retries=None, energy=10, repeat=1, tool_ret=42, inloop_final="done"):
+                nuc_retries=None, energy=10, repeat=1, tool_ret=42, inloop_final="done", autos=None):
     return {"config": {"kind": "tools", "max_iterations": lim, "tail": tail, "auto": auto, "tools": tools,
                        "provider": provider, "final": final, "nuc_retries": nuc_retries, "energy": energy,
-                       "repeat": repeat, "tool_ret": tool_ret, "inloop_final": inloop_final},
+                       "repeat": repeat, "tool_ret": tool_ret, "inloop_final": inloop_final, "autos": autos},
             "fakes": {"provider": list(script)}}
 
 
@@ -214,9 +218,9 @@ def gen(rng, tier, i):
         steps = rng.randint(0, 4)
         mode = weighted(rng, [(2, "global"), (2, "worker")])
         shape = weighted(rng, [(3, "never"), (3, "last_step"), (2, "free"), (3, "reentrant")])
-        quiet = "suuaesnnn"
+        quiet = "suuaesnnnjjj"
         if shape == "free":
-            s = [rng.choice("suaeMdfRDPnn") for _ in range(rng.randint(0, 8))]
+            s = [rng.choice("suaeMdfRDPnnjj") for _ in range(rng.randint(0, 8))]
         elif shape == "reentrant":
             # some workers die first, then a worker hands a sub-task to its own supervisor; the sub-run mostly ends at once
             dead = rng.randint(0, max(0, lim)) * max(1, steps)
@@ -230,7 +234,8 @@ def gen(rng, tier, i):
         return _swarm_plan(lim, steps, s, thr=rng.choice([0.9, 0.5, 0.5, 0.0, 1.0, 0.6]), mode=mode,
                            summ=weighted(rng, [(3, "hints"), (3, "empty"), (0.5, "raise")]),
                            supervise=weighted(rng, [(3, 1), (1, 2)]), tail=weighted(rng, [(3, "last"), (2, "cycle")]),
-                           delegations=rng.choice([1, 2, 2, 3]), timeout=rng.choice([None, None, 0.0, 5.0]),
+                           delegations=rng.choice([1, 2, 2, 3]), timeout=rng.choice([None, None, 0.0, 5.0, 5.0]),
+                           step_dt=rng.choice([0, 0, 0.001, 6.0, 60.0]),
                            worker=weighted(rng, [(3, "recording"), (2.5, "stateless"), (2, "simple"), (2.5, "simple_pruning"),
                                                  (1.5, "simple_clearing")]),
                            hints_mut=rng.random() < 0.3)
@@ -241,12 +246,18 @@ def gen(rng, tier, i):
         s = [rng.choice("TK2E3") for _ in range(rng.randint(1, 5))]
     else:
         s = [rng.choice("TK2E3") for _ in range(max(0, lim - 1))] + ["F"]
-    return _tools_plan(lim, s, final=weighted(rng, [(3, "final answer"), (2, ""), (1, " "), (1, "\n"), (1, " \t\n ")]),
+    calls_n = weighted(rng, [(3, 1), (2, 2), (0.6, 3)])
+    autos = None
+    if calls_n > 1 and rng.random() < 0.6:       # a history on one nucleus: a call that only *collects* tool requests, then ordinary ones
+        autos = [rng.random() < 0.35 for _ in range(calls_n)]
+        autos[rng.randrange(calls_n - 1)] = False
+        autos[-1] = True
+    return _tools_plan(lim, s, autos=autos, final=weighted(rng, [(3, "final answer"), (2, ""), (1, " "), (1, "\n"), (1, " \t\n ")]),
                        tail=weighted(rng, [(3, "last"), (2, "cycle"), (1, "final")]),
                        auto=rng.random() < 0.9, tools=weighted(rng, [(5, "both"), (1, "none")]),
                        provider=weighted(rng, [(6, "tools"), (1, "plain_only")]),
                        nuc_retries=rng.choice([None, None, 0, 1, 3, 5]), energy=rng.choice([10, 10, 0, 1]),
-                       repeat=weighted(rng, [(3, 1), (1, 2)]),
+                       repeat=calls_n,
                        tool_ret=rng.choice([42, 42, None, "", "big7k", "big7k", "big20k", "boom_empty"]),
                        inloop_final=rng.choice(["done", "done", "", " "]))
 
@@ -262,7 +273,7 @@ def simplify(plan):
                        ("prompt", "make a quote"), ("threshold", 0.5), ("mode", "global"), ("summ", "hints"),
                        ("supervise", 1), ("auto", True), ("tools", "both"), ("provider", "tools"), ("repeat", 1),
                        ("misfold", None), ("delegations", 1), ("timeout", None), ("worker", "recording"),
-                       ("hints_mut", False), ("final", "final answer"),
+                       ("hints_mut", False), ("step_dt", 0), ("autos", None), ("final", "final answer"),
                        ("nuc_retries", None), ("energy", 10), ("tool_ret", 42), ("inloop_final", "done")):
         if key in cfg and cfg[key] != small:
             yield {**plan, "config": {**cfg, key: small}}
@@ -492,6 +503,11 @@ def _run_swarm(plan, k, tr):
         w.steps += 1
         state["gstep"] += 1
         k.ev("step", [w.id, w.steps])
+        if cfg.get("step_dt"):
+            CLOCK.advance(cfg["step_dt"])               # the step takes (virtual) time
+            k.fault("clock_forward")
+            if cfg.get("timeout") is not None and cfg["step_dt"] > cfg["timeout"]:
+                k.probe("swarm_step_overran_timeout")
         if w.steps >= max_steps + 2:
             raise SimBudget("worker steps")
         idx = (state["gstep"] if cfg["mode"] == "global" else w.steps) - 1
@@ -518,6 +534,10 @@ def _run_swarm(plan, k, tr):
             if check_marker(res, "a nested supervise"):
                 k.probe("swarm_reentrant_sub_succeeded")
             outp = "delegated a sub-task" if sym == "D" else f"delegated: {res.output}"
+        elif sym == "j":
+            pair = (w.steps - 1) // 2 % len(SPLIT_HEADS)          # consecutive steps of one worker: head, then its tail
+            outp = SPLIT_HEADS[pair] if w.steps % 2 == 1 else SPLIT_TAILS[pair]
+            k.probe("swarm_marker_split_over_two_outputs")
         elif sym == "n":
             outp = f"{NEAR_MISS[state['gstep'] % len(NEAR_MISS)]} ({state['gstep']})"
             k.probe("swarm_near_miss_output")
@@ -635,6 +655,7 @@ class _Provider:
         self.cwt = 0
         self.plain = 0
         self.order = []          # every provider call of the current transcribe_with_tools, by kind
+        self.asked = False       # did the provider request tools in the current call?
 
     def is_available(self):
         return True
@@ -663,6 +684,7 @@ class _Provider:
         if sym == "F":
             return self._resp(self.inloop_final), []
         self.k.fault("collab_adversarial_value")
+        self.asked = True
         names = {"T": ["calc"], "K": ["ghost"], "2": ["calc", "calc"], "E": ["boom"], "3": ["boom", "ghost", "calc"]}[sym]
         return self._resp(""), [ToolCall(id=f"c{self.cwt}_{j}", name=nm, arguments={"x": j}) for j, nm in enumerate(names)]
 
@@ -710,6 +732,7 @@ def _run_tools(plan, k, tr):
         nkw["max_retries"] = cfg["nuc_retries"]
     nuc = Nucleus(provider=prov, **nkw)
     blank_final = not str(cfg.get("final", "x")).strip()
+    unanswered = [False]
     for rep_no in range(cfg.get("repeat", 1)):          # the nucleus is long-lived: every call has its own budget
         if rep_no:
             k.probe("tools_second_call_on_same_nucleus")
@@ -717,12 +740,19 @@ def _run_tools(plan, k, tr):
         del prov.order[:]
         exec_rounds.clear()
         runs[0] = 0
-        if not _tools_once(k, tr, cfg, script, lim, site, prov, nuc, m, exec_rounds, runs, blank_final):
+        autos = cfg.get("autos")
+        auto = autos[rep_no] if autos and rep_no < len(autos) else cfg["auto"]
+        if rep_no and auto and unanswered[0]:
+            k.probe("tools_ordinary_call_after_unexecuted_request")
+        prov.asked = False
+        ok = _tools_once(k, tr, cfg, script, lim, site, prov, nuc, m, exec_rounds, runs, blank_final, auto)
+        unanswered[0] = (not auto) and prov.asked
+        if not ok:
             return
 
 
-def _tools_once(k, tr, cfg, script, lim, site, prov, nuc, m, exec_rounds, runs, blank_final):
-    out = call(nuc.transcribe_with_tools, "what is 6*7?", m, None, lim, cfg["auto"], tracer=tr)
+def _tools_once(k, tr, cfg, script, lim, site, prov, nuc, m, exec_rounds, runs, blank_final, auto):
+    out = call(nuc.transcribe_with_tools, "what is 6*7?", m, None, lim, auto, tracer=tr)
     k.ev("tools", [out.brief()[0], prov.cwt, prov.plain, runs[0]])
 
     if out.kind == "step_budget":
